@@ -48,9 +48,26 @@ func (w *World) raceClause(users []string) {
 		}
 		return ""
 	}
-	kind := r.Choose("race-kind", 3)
+	// a third of the races are two goroutines of one program on the *same* store.Dir (a library
+	// user with several request handlers): the instance's hashers are then shared, and their
+	// statements are scheduling points as well
+	sameInstance := r.Choose("race-same-instance", 3) == 0
+	if sameInstance {
+		pb = pa
+		w.libYields = true
+		defer func() { w.libYields = false }()
+		r.Count("probe:two-callers-of-one-instance")
+	}
+	kind := r.Choose("race-kind", 4)
 	if kind == 2 && len(existing) == 0 {
 		kind = 0
+	}
+	if kind == 3 {
+		// two logins at the same time: X with X's password, Y with X's password
+		if len(existing) >= 2 {
+			w.loginRace(pa, pb, existing)
+		}
+		return
 	}
 	pwA, pwB := GenPassword(r), GenPassword(r)
 	var eA, eB error
@@ -95,6 +112,9 @@ func (w *World) raceClause(users []string) {
 		[]string{"add", "add", "update"}[kind], simrt.Q(uA), simrt.Q(pwA), eA, []string{"add", "add", "update"}[kind], simrt.Q(uB), simrt.Q(pwB), eB, switches)
 	r.Logf("race: %s", what)
 	defA, defB := w.sets[w.cfgs[0].Default], w.sets[w.cfgs[len(w.dirs)-1].Default]
+	if sameInstance {
+		defB = defA
+	}
 	verifies := func(u, pw string) bool {
 		_, content, ok := w.userFile(u)
 		return ok && RefVerifyLenient(w.sets, content, pw)
@@ -181,6 +201,39 @@ func (w *World) raceClause(users []string) {
 	}
 	if tmp := w.tmpEntries(); len(tmp) > 0 {
 		r.FailOther("C16", "tmp/residue", "%s: work area not empty after both operations completed: %v", what, tmp)
+	}
+	w.confinement()
+}
+
+// loginRace: two authentications overlap (two instances, or two goroutines on one instance):
+// user X with X's password and user Y with X's password. The first succeeds, the second does
+// not (unless the two passwords are the same key), whatever the interleaving.
+func (w *World) loginRace(pa, pb *Dir, existing []string) {
+	r := w.r
+	x := existing[r.Choose("login-race-x", len(existing))]
+	y := existing[r.Choose("login-race-y", len(existing))]
+	if x == y {
+		return
+	}
+	mx, my := w.model[x], w.model[y]
+	if mx.Set.Canon(mx.PW) == mx.Set.Canon(my.PW) || my.Set.Canon(mx.PW) == my.Set.Canon(my.PW) {
+		return
+	}
+	var okX, okY bool
+	var eX, eY error
+	_, switches := w.interleaveReader(w.fs, func() {
+		okX, _, _, _, eX = pa.Authenticate(x, mx.PW)
+	}, func(*[]readerObs) {
+		okY, _, _, _, eY = pb.Authenticate(y, mx.PW)
+	})
+	r.Count("probe:two-login-races")
+	what := fmt.Sprintf("login %s with its password -> %v (%v) || login %s with the password of %s -> %v (%v) (%d context switches)", simrt.Q(x), okX, eX, simrt.Q(y), simrt.Q(x), okY, eY, switches)
+	r.Logf("race: %s", what)
+	if !okX {
+		r.Fail("race/concurrent-login-refused", "%s: the right password was refused", what)
+	}
+	if okY {
+		r.Fail("race/concurrent-login-wrong-password-accepted", "%s: a password that is not the account's was accepted", what)
 	}
 	w.confinement()
 }
